@@ -1,6 +1,8 @@
 import Bmc.Proto.Suites
 import Bmc.Lemmas.HandshakeInv
 import Bmc.Gen.Facts
+import Bmc.Proto.Discovery
+import Bmc.Proofs.C16
 /-! # C12 — the cipher suite used is the caller's first supported preference, never another (property theorems only) -/
 namespace Bmc.Proofs.C12
 open Bmc Bmc.Wire Bmc.Crypto Bmc.Proto
@@ -94,5 +96,47 @@ theorem no_downgrade (C : Ops) (o : Opts) (rm : Bytes) (script : List Outcome) (
   split at hauth <;> simp_all
 
 example : determine [⟨3, 4, 1⟩, ⟨2, 2, 1⟩, ⟨1, 1, 1⟩] (some [⟨1, 1, 1⟩, ⟨2, 2, 1⟩]) = .propose ⟨2, 2, 1⟩ true := by decide
+
+-- discovery and choice composed ------------------------------------------------------------------------------------------
+open Bmc.Proto.Enum Bmc.Spec.Enum Bmc.Lemmas.Enum in
+/-- DISCOVERY + CHOICE, end to end at the wire: against a BMC that holds ANY list of well-formed cipher suite records
+    (standard and OEM, any number of integrity / confidentiality algorithms each, up to the 1024 bytes the list index
+    can address) and serves them 16 bytes per Get Channel Cipher Suites list index as the specification says, the
+    selection sees exactly one suite per (integrity, confidentiality) combination of each record — so
+    `choose_first_supported` / `none_supported` / `defaults` apply with `adv` = what the BMC really advertises -/
+theorem discovery_then_choice (prefs : List Suite) (ch : UInt8) (hch : ch.toNat < 16) (rs : List Record)
+    (hw : ∀ r ∈ rs, r.wf) (hlen : (encodeRecords rs).length < 1024) :
+    determineFull prefs (pageOfBody fun i => some (pageBody ch (encodeRecords rs) i)) =
+      determine prefs (some (((rs.flatMap expand).map view).map suiteOfEntry)) := by
+  unfold determineFull discovered
+  rw [Bmc.Proofs.C16.retrieve_complete ch hch rs hw hlen]
+
+open Bmc.Proto.Enum Bmc.Spec.Enum Bmc.Lemmas.Enum in
+/-- … hence, with several preferences, the proposal is the first preference that occurs as an (authentication,
+    integrity, confidentiality) combination of some record the BMC holds -/
+theorem first_advertised_preference (prefs : List Suite) (h2 : 2 ≤ prefs.length) (ch : UInt8) (hch : ch.toNat < 16)
+    (rs : List Record) (hw : ∀ r ∈ rs, r.wf) (hlen : (encodeRecords rs).length < 1024) (p : Suite)
+    (h : determineFull prefs (pageOfBody fun i => some (pageBody ch (encodeRecords rs) i)) = .propose p true) :
+    p ∈ prefs ∧ (∃ r ∈ rs, ∃ e ∈ expand r, suiteOfEntry (view e) = p) ∧
+    ∀ q ∈ prefs.takeWhile (· ≠ p), ¬ ∃ r ∈ rs, ∃ e ∈ expand r, suiteOfEntry (view e) = q := by
+  rw [discovery_then_choice prefs ch hch rs hw hlen] at h
+  obtain ⟨h1, h2', h3⟩ := choose_first_supported prefs h2 _ p h
+  refine ⟨h1, ?_, fun q hq hex => h3 q hq ?_⟩
+  · simp only [List.mem_map, List.mem_flatMap] at h2'
+    obtain ⟨en, ⟨ce, ⟨r, hr, hce⟩, rfl⟩, rfl⟩ := h2'
+    exact ⟨r, hr, ce, hce, rfl⟩
+  · obtain ⟨r, hr, e, he, rfl⟩ := hex
+    simp only [List.mem_map, List.mem_flatMap]
+    exact ⟨view e, ⟨e, ⟨r, hr, he⟩, rfl⟩, rfl⟩
+
+/-- a failed discovery (any list index answered with an error, or record data that does not parse) is an error: no
+    suite is proposed on a guess -/
+theorem discovery_failure_is_error (prefs : List Suite) (h2 : 2 ≤ prefs.length) (page : Nat → Option Bytes)
+    (hd : discovered page = none) : determineFull prefs page = .discoveryFailed := by
+  unfold determineFull determine
+  have hne : prefs.isEmpty = false := by cases prefs <;> simp_all
+  simp only [hne, Bool.false_eq_true, if_false, hd]
+  match prefs, h2 with
+  | a :: b :: rest, _ => rfl
 
 end Bmc.Proofs.C12
